@@ -27,6 +27,9 @@ PYMOD = {'DHLLDV_constants': 'DHLLDV.DHLLDV_constants', 'homogeneous': 'DHLLDV.h
          'Wilson_V50': 'Wilson.Wilson_V50'}
 
 
+UNKNOWN_PARAMS = set()
+
+
 def vt_ruby(d, Rsd, nu):
     return 10 * nu / d * ((1 + (Rsd * 9.80665 * d ** 3) / (100 * nu ** 2)) ** 0.5 - 1)
 
@@ -76,7 +79,10 @@ def arg_value(pname, b, rng, fn_default):
         return b['d']
     if pname == 'd85':
         return b['d'] * b.get('r85', 2.0)
-    raise SystemExit(f'corr_gen: no generator for parameter {pname}')
+    # a parameter this harness has no physical generator for (e.g. renamed in the source): a positive number spanning
+    # several decades still exercises the function; the distribution records that the fallback was used
+    UNKNOWN_PARAMS.add(pname)
+    return math.exp(rng.uniform(math.log(1e-3), math.log(10.0)))
 
 
 def malform(b, rng):
@@ -273,6 +279,7 @@ def main():
            'disagreements': st.disagree[:20], 'n_disagreements': len(st.disagree),
            'per_function': st.per_function, 'error_kinds': st.err_kinds, 'samples': st.samples,
            'seed': seed(), 'wall_s': st.wall()}
+    res['unknown_parameters_fallback'] = sorted(UNKNOWN_PARAMS)
     write_json(a.out, res)
     print(f"corr_gen: {st.evaluations} evaluations over {len(entries)} functions, {st.agree} bit-exact, "
           f"{st.agree_err} agree-on-error, {len(st.disagree)} disagreements, {st.wall()} s")
